@@ -161,6 +161,77 @@ def keepalive_signing(chk, binp):
         stack.close()
 
 
+def disable_under_load(chk, binp):
+    """the channel is reported disabled while hundreds of requests keep the key keeper's state actor busy (its mailbox is full):
+    the agent still ends up without a key"""
+    import pipe
+    import threading
+    from checks import c10
+    stack = e2e.Stack(binp)
+    conns = []
+    stop = [False]
+    try:
+        callers = pipe.Callers(stack)
+        for ep in ("ws", "imds", "hostga"):
+            stack.ctl(f"rules {ep} none")
+        kp = keeper.Keeper(None, sd=stack.sd, attach=stack, interval_ms=15)
+        K1 = c10.K1
+        doc_on = {"version": "1.0", "secureChannelState": "Wireserver", "keyGuid": None}
+        if kp.step({"status": {"kind": "doc", "doc": doc_on}, "acquire": {"kind": "key", "guid": K1, "key": c10.KEYS[K1]}, "attest": {"kind": "ok"}}, kick=True) is None:
+            chk.broken.append({"kind": "harness", "name": "disable-under-load", "why": "no poll after latch"})
+            return
+        c = callers.caller(0, "curl", True)
+        for i in range(24):
+            try:
+                conns.append(stack.connect(audit=(0, c["pid"], 1, e2e.IMDS[0], e2e.IMDS[1])))
+            except OSError:
+                break
+        raw = e2e.build_request("GET", "/metadata/instance?load=1", [(b"Host", b"h")])
+
+        def worker(conn):
+            while not stop[0]:
+                try:
+                    if conn.request(raw, b"GET", 10.0) is None:
+                        return
+                except OSError:
+                    return
+        # 400 readers (what request handlers are) queue up at the state actor the moment the poll records the new channel state:
+        # its mailbox of 100 is full when the poll goes on to clear the key
+        stack.ctl("floodactor SetSecureChannelState 400 2000")
+        ths = [threading.Thread(target=worker, args=(cn,), daemon=True) for cn in conns]
+        for t in ths:
+            t.start()
+        time.sleep(0.3)
+        st = kp.step({"status": {"kind": "doc", "doc": {"version": "1.0", "secureChannelState": "Disabled", "keyGuid": K1}}, "attest": {"kind": "ok"}},
+                     kick=False, timeout=60.0)
+        stop[0] = True
+        stack.ctl("khook off")
+        for t in ths:
+            t.join(timeout=15)
+        time.sleep(0.3)
+        line = stack.ctl("kstate")
+        s_ = keeper.parse_state(line)
+        chk.case(nontrivial_key=("disable-under-load", len(conns), s_.get("chan"), s_.get("haskey")))
+        chk.count("disable_under_load")
+        d = {"load": "%d kept-alive connections sending requests in a loop; 400 reader messages queued at the key keeper's state actor (mailbox: 100) when the poll records the new state" % len(conns),
+             "document": "secureChannelState Disabled", "agent_state_afterwards": line[:200]}
+        if st is None:
+            chk.disagreement("keeper-lockstep", d, "the poll completes", "no next status poll within the time limit")
+        elif s_.get("chan") != hx("disabled"):
+            chk.disagreement("keeper-state", d, "disabled", vlib.unhx(s_.get("chan") or "").decode("utf-8", "replace"))
+        elif s_.get("haskey") == "1" or s_.get("guid", "-") not in ("-", ""):
+            chk.violation("channel reported disabled but the agent still holds a key", d, observed={"guid": s_.get("guid"), "haskey": s_.get("haskey")})
+        kp.close()
+    finally:
+        stop[0] = True
+        for cn in conns:
+            try:
+                cn.close()
+            except Exception:
+                pass
+        stack.close()
+
+
 def run(chk):
     if not e2e.in_netns():
         e2e.reexec_in_netns()
@@ -243,6 +314,13 @@ def run(chk):
                     plan["acquire"] = {"kind": "raw", "body": b'{"guid": 5'}
                 else:
                     plan["acquire"] = {"kind": "http", "code": 500}
+                # the host may send its documents with Transfer-Encoding: chunked, in several chunks
+                if plan["status"]["kind"] == "doc" and rng.chance(1, 3):
+                    plan["status"]["chunked"] = True
+                    chk.count("status_documents_sent_chunked")
+                if plan.get("acquire", {}).get("kind") == "key" and rng.chance(1, 3):
+                    plan["acquire"]["chunked"] = True
+                    chk.count("key_documents_sent_chunked")
                 attest_ok = satt if script else rng.chance(4, 5)
                 plan["attest"] = {"kind": "ok"} if attest_ok else {"kind": "http", "code": rng.pick([500, 403])}
                 # sometimes corrupt / plant the local file for the guid the document names
@@ -375,6 +453,7 @@ def run(chk):
             kp.close()
             shutil.rmtree(kp.sd, ignore_errors=True)
     keepalive_signing(chk, binp)
+    disable_under_load(chk, binp)
     if chk.counts.get("done_1", 0) == 0:
         chk.broken.append({"kind": "gate", "name": "generator sanity", "why": "no iteration completed"})
     chk.coverage["rule"] = ("histories of 4-30 host answers in lock-step with the real key-keeper loop (status requests gated by the mock host): "
